@@ -28,18 +28,31 @@ class Req:
     """one request + what the spec says must happen"""
     def __init__(self, r, kind=None, last=False):
         self.kind = kind or r.choice(["echo", "echo", "noread", "readk", "early", "swallow", "p", "notfound", "close", "err", "errint", "errclose", "hookdrop", "hookdropclose", "bigr", "reqclose", "reqnoclose",
-                                      "closeempty", "closer", "hookdropclosesend", "silent", "errkind"])
+                                      "closeempty", "closer", "hookdropclosesend", "silent", "errkind",
+                                      "gecho", "cont", "crlfpre", "hookstrip", "bigchunk"])
         k = self.kind
         self.body = b""
         self.framing = None
         hdrs = []
         method, path = b"GET", b"/nope"
-        has_body = k in ("echo", "noread", "readk", "early", "swallow") or (k in ("hookdrop", "hookdropclose", "hookdropclosesend", "notfound", "reqclose") and r.random() < 0.5)
+        has_body = k in ("echo", "noread", "readk", "early", "swallow", "gecho", "cont", "bigchunk") or (k in ("hookdrop", "hookdropclose", "hookdropclosesend", "notfound", "reqclose") and r.random() < 0.5)
         if has_body:
             self.body = rstr_body(r)
             self.framing = r.choice(["fixed", "fixed", "chunked"])
         self.readk = 0
         if k == "echo": method, path = b"POST", b"/echo"
+        elif k == "gecho": method, path = r.choice([b"GET", b"PUT", b"DELETE"]), b"/gecho"     # a body on GET / PUT / DELETE
+        elif k == "cont":
+            method, path = b"POST", b"/continue"
+            hdrs.append((b"Expect", b"100-continue"))
+        elif k == "crlfpre":
+            path = b"/p/1/2"       # the request line is preceded by an empty line: not `method SP target SP version`
+        elif k == "hookstrip":
+            # close token in the FIRST of two Connection fields; a pre-routing hook then removes an unrelated field
+            path = b"/p/7/8"
+            hdrs += [(b"Connection", r.choice([b"close", b"Close", b"x, close"])), (b"x-internal-auth", b"1"), (b"Connection", b"keep-alive"), (b"x-hook", b"strip")]
+        elif k == "bigchunk":
+            method, path = b"POST", b"/echo"
         elif k == "noread": method, path = b"POST", b"/noread"
         elif k == "readk":
             self.readk = r.randrange(0, len(self.body) + 2)
@@ -89,19 +102,29 @@ class Req:
                 self.wire_body = chunked(self.body, r, exts=True, trailers=True)
         else:
             self.wire_body = b""
-        r.shuffle(hdrs)
+        if k == "bigchunk":
+            # a chunk size of 2^64 and more (17+ hex digits) is not a size the reader can represent: malformed, never wrapped
+            self.framing = "chunked"
+            hdrs = [(b"Transfer-Encoding", b"chunked")]
+            self.wire_body = r.choice([b"10000000000000005", b"10000000000000000", b"f0000000000000005", b"100000000000000000005"]) + b"\r\nhello\r\n0\r\n\r\n"
+        if k != "hookstrip":
+            r.shuffle(hdrs)
         # HTTP/1.0 requests are handled like HTTP/1.1 ones: the connection persists unless one of the listed reasons to close applies
         ver = b"HTTP/1.0" if r.random() < 0.12 else b"HTTP/1.1"
         if ver == b"HTTP/1.0" and r.random() < 0.3:
             hdrs.append((b"Connection", b"keep-alive"))
-        self.head = method + b" " + path + b" " + ver + b"\r\n" + b"".join(k_ + b": " + v + b"\r\n" for k_, v in hdrs) + b"\r\n"
+        self.head = (b"\r\n" if k == "crlfpre" else b"") + method + b" " + path + b" " + ver + b"\r\n" + b"".join(k_ + b": " + v + b"\r\n" for k_, v in hdrs) + b"\r\n"
         self.has_body = has_body
 
     # ---- what the spec demands -------------------------------------------------
     def expected(self):
         """(status, close_header, body) or None when no response is sent (handler error); closes_after"""
         k = self.kind
-        if k == "echo": return (200, 0, self.body), False
+        if k in ("echo", "gecho"): return (200, 0, self.body), False
+        if k == "cont": return "cont", False
+        if k == "crlfpre": return (400, 1, b""), True
+        if k == "hookstrip": return (200, 0, b"7,8"), True
+        if k == "bigchunk": return None, True
         if k == "noread": return (200, 0, b"noread"), False
         if k == "readk": return (200, 0, self.body[:self.readk]), False
         if k == "early": return (200, 0, b"early"), False
@@ -189,6 +212,10 @@ def history(r, max_reqs=4, kinds=None):
             steps.append("c"); steps.append("e"); exp.append("EOF")
             closed = True
             break
+        if e == "cont":
+            steps += ["r", "r"]
+            exp += ["R100:0:e", "R200:0:" + hx(q.body)]
+            continue
         if e is None:
             exp.append("EOF")
             steps.append("r")
